@@ -479,9 +479,20 @@ let rec judge_case (u : uni) (case : sx) (obs : sx list) : verdict =
    | L [A "badarg"; A kind] ->
        (match obs with
         | [A sz; A e; A d] ->
-            let want = match kind with
-              | "nilptr" -> ("ok", "ok", "err")       (* a nil *T encodes as an empty struct; decoding into nil is refused *)
-              | _ -> ("panic", "err", "err") in
+            let shape = match kind with
+              | "nil" -> AInvalid
+              | "nilptr" -> APtr (true, AStruct)
+              | "ptr" -> APtr (false, AStruct)
+              | "struct" -> AStruct
+              | "ptrptr" -> APtr (false, APtr (false, AStruct))
+              | "nilptrptr" -> APtr (true, APtr (false, AStruct))
+              | "ptrint" | "ptrslice" | "ptrmap" | "ptriface" -> APtr (false, AOther)
+              | "nilptrint" -> APtr (true, AOther)
+              | _ -> AOther in
+            (* a call that passes the argument checks runs on a zero Leaf: size and encode succeed,
+               decoding the one byte 00 succeeds *)
+            let cls_size = function ArgProceed -> "ok" | ArgError -> "err" | ArgPanic -> "panic" in
+            let want = (cls_size (size_arg shape), cls_size (encode_arg shape), cls_size (decode_arg shape)) in
             if (sz, e, d) <> want then fail v "prop-badarg" (Printf.sprintf "%s: got %s %s %s" kind sz e d)
         | _ -> fail v "harness" "unparsable observation")
    | L (A "span" :: reqs) ->
@@ -555,10 +566,16 @@ let rec judge_case (u : uni) (case : sx) (obs : sx list) : verdict =
                   let tok p = if p = "" then "-" else
                     String.map (fun c -> match c with ' ' -> '_' | '(' -> '<' | ')' -> '>' | c -> c) p in
                   let exp = ref [] in
-                  let rec walk (t : ty) (x : val0) (path : string) (nc : bool) =
+                  let may = ref [] in   (* equal to the field's InitDefault value: decoded or left alone, both fine *)
+                  let rec walk ?(dflt : val0 option) (t : ty) (x : val0) (path : string) (nc : bool) =
                     match t, x with
                     | TPtr t', VP (Some x') -> walk t' x' (path ^ "*") nc
-                    | (TString | TBinary), VB (_, s) -> if nc && s <> [] then exp := (tok path, List.length s) :: !exp
+                    | (TString | TBinary), VB (_, s) ->
+                        if nc && s <> [] then begin
+                          match dflt with
+                          | Some (VB (_, s')) when s' = s -> may := (tok path, List.length s) :: !may
+                          | _ -> exp := (tok path, List.length s) :: !exp
+                        end
                     | TList (_, e), VL (Some l) -> List.iteri (fun i y -> walk e y (Printf.sprintf "%s[%d]" path i) false) l
                     | TMap (kt, vt), VM (Some m) ->
                         List.iter (fun (k, y) ->
@@ -567,14 +584,14 @@ let rec judge_case (u : uni) (case : sx) (obs : sx list) : verdict =
                     | TStruct s', VT (fs, _) ->
                         let sd = List.nth u.env (int_of_n s') in
                         let rec go fds vs ns = match fds, vs, ns with
-                          | f :: fr, y :: vr, nm :: nr -> walk f.fty y (path ^ "." ^ nm) f.fnocopy; go fr vr nr
+                          | f :: fr, y :: vr, nm :: nr -> walk ?dflt:f.fdflt f.fty y (path ^ "." ^ nm) f.fnocopy; go fr vr nr
                           | _ -> () in
                         go sd.sfields fs u.fnames.(int_of_n s')
                     | _ -> () in
                   walk (TStruct nsid) mv "" false;
                   let got = List.filter_map (function L [A p; A _; A ln; A cp] -> Some (p, int_of_string ln, int_of_string cp) | _ -> None) inb in
                   let expected = List.sort compare !exp in
-                  let gotpl = List.sort compare (List.map (fun (p, l, _) -> (p, l)) got) in
+                  let gotpl = List.sort compare (List.filter (fun pl -> not (List.mem pl !may)) (List.map (fun (p, l, _) -> (p, l)) got)) in
                   if gotpl <> expected then
                     fail v "prop-nocopy-set" (Printf.sprintf "pieces viewing the input: expected [%s] got [%s]"
                       (String.concat " " (List.map (fun (p, l) -> Printf.sprintf "%s:%d" p l) expected))
